@@ -71,7 +71,8 @@ func mod11(num int64) int64 {
 	}
 	sum = sum % 11
 	if sum > 9 {
-		sum = 0
+		// a remainder of 10 has no check digit: the number fails the 11-test
+		return -1
 	}
 	return sum
 }
